@@ -297,8 +297,17 @@ def src_digest():
 # --------------------------------------------------------------------------
 # running kani
 # --------------------------------------------------------------------------
-def kani_invoke(sh, fqs, out_json, logf, timeout_s, jobs, target_dir, extra=None, cbmc_args=None, stubbing=True):
-    cmd = ["cargo", "kani", "--target-dir", target_dir, "--features", "decode",
+def feature_args(features):
+    """`//@ features: nopar` builds the crate without the `par` feature (Kani 0.68 crashes,
+    intrinsics.rs:243, on code that can reach std::thread / crossbeam: the single-thread
+    encode loop is the same code in both builds)."""
+    if features == "nopar":
+        return ["--no-default-features", "--features", "log,serde,decode"]
+    return ["--features", "decode"]
+
+
+def kani_invoke(sh, fqs, out_json, logf, timeout_s, jobs, target_dir, extra=None, cbmc_args=None, stubbing=True, features=""):
+    cmd = ["cargo", "kani", "--target-dir", target_dir] + feature_args(features) + [
            "-Z", "unstable-options", "--harness-timeout", "%ds" % timeout_s,
            "--export-json", out_json, "--output-format", "terse", "-j", str(jobs), "--exact"]
     if stubbing:
@@ -348,10 +357,10 @@ def extract_playback_batch(sh, metas, target_dir, logdir, timeout_s, jobs):
     out = {}
     groups = {}
     for m in metas:
-        groups.setdefault(m.get("cbmc_args", ""), []).append(m)
-    for gi, (cargs, ms) in enumerate(sorted(groups.items())):
+        groups.setdefault((m.get("cbmc_args", ""), m.get("features", "")), []).append(m)
+    for gi, ((cargs, feats), ms) in enumerate(sorted(groups.items())):
         logf = os.path.join(logdir, "playback_%d.log" % gi)
-        cmd = ["cargo", "kani", "--target-dir", target_dir, "--features", "decode",
+        cmd = ["cargo", "kani", "--target-dir", target_dir + ("-" + feats if feats else "")] + feature_args(feats) + [
                "-Z", "unstable-options", "-Z", "stubbing", "--harness-timeout", "%ds" % (3 * timeout_s),
                "-Z", "concrete-playback", "--concrete-playback=print", "--exact",
                "--output-format", "terse"]  # (concrete playback is incompatible with --jobs)
@@ -539,16 +548,16 @@ def run_property(prop, tier, seed, sel, tmp, logdir, args, t0):
     # group by cbmc_args (one cargo-kani invocation per distinct argument set)
     groups = {}
     for m in sel:
-        groups.setdefault(m.get("cbmc_args", ""), []).append(m)
+        groups.setdefault((m.get("cbmc_args", ""), m.get("features", "")), []).append(m)
     results = {}
     build_failed = False
-    for gi, (cargs, ms) in enumerate(sorted(groups.items())):
+    for gi, ((cargs, feats), ms) in enumerate(sorted(groups.items())):
         out_json = os.path.join(tmp, "out_%d.json" % gi)
         logf = os.path.join(logdir, "kani_%d.log" % gi)
         log("[%s] kani: %d harness(es)%s, per-harness timeout %ds, -j %d" % (
             prop, len(ms), (" cbmc-args=" + cargs) if cargs else "", timeout_s, args.jobs))
         kani_invoke(sh, [m["fq"] for m in ms], out_json, logf, timeout_s, args.jobs,
-                    target_dir_for(TD_GROUP), cbmc_args=cargs.split() if cargs else None)
+                    target_dir_for(TD_GROUP + ("-" + feats if feats else "")), cbmc_args=cargs.split() if cargs else None, features=feats)
         r = parse_results(out_json)
         txt = open(logf).read()
         if r is None and len(ms) > 1 and "panicked at kani-driver" in txt:
@@ -559,7 +568,7 @@ def run_property(prop, tier, seed, sel, tmp, logdir, args, t0):
             for hi, m1 in enumerate(ms):
                 oj = os.path.join(tmp, "out_%d_%d.json" % (gi, hi))
                 kani_invoke(sh, [m1["fq"]], oj, os.path.join(logdir, "kani_%d_%d.log" % (gi, hi)), timeout_s, 1,
-                            target_dir_for(TD_GROUP), cbmc_args=cargs.split() if cargs else None)
+                            target_dir_for(TD_GROUP + ("-" + feats if feats else "")), cbmc_args=cargs.split() if cargs else None, features=feats)
                 r1 = parse_results(oj)
                 if r1:
                     r.update(r1)
